@@ -126,6 +126,9 @@ func checkC14(p *Prog, l *Ledger) {
 	// no rewriting of operand expressions by syntactic kind between parsing and evaluation (shared with C16/C18): a folded
 	// `x || false` yields x, not the deciding operand's value
 	checkNodeKindTests(p, l, "C14/S4-no-syntactic-rewrites")
+	// which operand a short-circuit operator guards is decided by the documented grouping: `a || b && c` is `a || (b && c)`
+	// (C01's ladder: each binary operator at its own level, each level taking its operands from the next)
+	l.AsOnly(map[string]string{"C01/S1-ladder": "C14/S3-short-circuit/operator-levels", "C01/S2-associativity": "C14/S3-short-circuit/operator-levels/associativity"}, func() { checkC01(p, l) })
 	// a call: callee first, then every argument once, left to right, into a list of this evaluation's own, and exactly
 	// that list reaches the callee (rule shared with C04)
 	l.As(map[string]string{"C04/S3-call-protocol": "C14/S2-call-arguments", "C04/S3-who-invokes": "C14/S2-call-arguments/who-invokes"}, func() { checkCallProtocol(cs, l) })
